@@ -196,6 +196,60 @@ def consistency_reach(repo: Repo) -> RuleRun:
             raiser.node,
             key="inter-block",
         )
+    # (iii) abstract evaluation of the raising check on symbolic wires
+    for raiser in raisers:
+        if raiser.cls is None or len(raiser.params) != 1:
+            continue
+
+        def mk(counts, coin=None):
+            wires = []
+            for i, c in enumerate(counts):
+                w = Obj(f"w{i}")
+                g = Obj(f"g{i}")
+                g.set("count", c)
+                g.set("is_defined", True)
+                w.set("grading", g)
+                w.set("coincidents", set())
+                wires.append(w)
+            if coin is not None:
+                idx, ccount, cdef = coin
+                cw = Obj("cw")
+                cg = Obj("cg")
+                cg.set("count", ccount)
+                cg.set("is_defined", cdef)
+                cw.set("grading", cg)
+                cw.set("coincidents", set())
+                wires[idx].get("coincidents").add(cw)
+            mgr = Obj("mgr", cls=raiser.cls)
+            mgr.set("wires", wires)
+            mgr.set("chops", [])
+            return mgr
+
+        cases = [
+            ("equal counts, no neighbours", mk([5, 5, 5, 5]), False),
+            ("one wire of the block differs", mk([5, 5, 7, 5]), True),
+            ("the first wire differs", mk([7, 5, 5, 5]), True),
+            ("neighbour block demands another count on wire 0", mk([5, 5, 5, 5], (0, 7, True)), True),
+            ("neighbour block demands another count on wire 3", mk([5, 5, 5, 5], (3, 4, True)), True),
+            ("neighbour block agrees", mk([5, 5, 5, 5], (2, 5, True)), False),
+        ]
+        for label, mgr, should in cases:
+            try:
+                Evaluator(repo=repo, module=raiser.module).call_funcinfo(raiser, [mgr])
+                got = None
+            except Raised as err:
+                got = err.exc_name
+            except NotEvaluable as err:
+                raise AnalysisError(f"{raiser.qualname} not evaluable on symbolic wires: {err}") from err
+            ok = (got is not None and got.endswith("InconsistentGradingsError")) if should else got is None
+            r.check(
+                ok,
+                raiser,
+                f"{label}: {'raises' if got else 'passes'}",
+                f"{raiser.qualname}: {label}: {'no error is raised - the conflicting counts would be written' if should else 'raises ' + str(got) + ' although the counts are consistent'}",
+                raiser.node,
+                key=f"eval:{label}",
+            )
     return r
 
 
